@@ -6,6 +6,7 @@ BASELINE = json.load(open("/root/.vp/BASELINE.json"))["cmd"] if os.path.exists("
     "cd /repo && /venv/bin/python -m pytest -ra -q -p no:cacheprovider --timeout=900 --continue-on-collection-errors"
 BASELINE = BASELINE.replace(" --junitxml=<file>", "")
 
+CORE_NOTE = ('the core state machine (Arbiter/Watcher/Process/Controller/commands as tornado coroutines over a simulated kernel) is modelled in lean/CircusModel/Core; real kernel scheduling, zmq, on_demand sockets, stream redirection and regex matching are outside it; liveness is proved only in finite form.')
 NOTE_COMMON = ("Trusted: Lean 4.33.0 kernel; axioms propext/Classical.choice/Quot.sound only (audited every run); "
                "the hand-written model is tied to /repo only by the run's correspondence check (differential "
                "testing against the real code), so the theorems speak about circus exactly as far as that check reaches. ")
@@ -46,6 +47,9 @@ CLAIMED = {
  "C17": ('Lean 4 theorems (invariants by induction over op lists) about a model of the Redirector over a pipe kernel with lowest-free fd reuse + differential correspondence with the real Redirector/Process on real pipes',
          'C17_stream_refinement, C17_accounting, C17_handlers_labelled, C17_no_spin, C17_no_leak(_bounded) proved for all op lists; completeness holds only under NoLossAtClose (C17_complete_partial) — the real code drops bytes still queued when Process.stop() closes the pipe (known finding F17, counter-example theorem).',
          'DESIGN.md 5 (C17)', 'epoll readiness, pipe capacity and several Redirectors sharing a loop are not modelled.'),
+ "C10": ("Lean 4: SlotInv (slot taken iff exactly one release callback pending, never two) proved for every reachable state by generic preservation over the coroutine interpreter with bespoke lemmas for util.synchronized, future completion and the event-loop step; refusal/no-effect and outcome-independence of the release as separate theorems; differential correspondence of the core model with the real code",
+         "C10_slot_inv, C10_refused_no_effect(_plain), C10_accepted_takes_slot, C10_release_whatever_outcome_sync/_async, C10_taken_means_pending, C10_free_when_nothing_pending are proved. That every registered future eventually completes (no lost continuation) is not a theorem; the oracle looks for a wedged slot at every quiescent point of every generated scenario, with requests injected at every progress point of a first operation that succeeds, raises synchronously or fails asynchronously (hooks, exec failures).",
+         "DESIGN.md 5 (C10)", CORE_NOTE),
 }
 NOT_YET = "not decided by the machinery in this revision (model layer not built yet); not claimed"
 NOT_APPLICABLE = {}
